@@ -117,7 +117,7 @@ Qed.
 (* a drain without budgets that empties its queue is reproduced under any budgets that
    cover it *)
 Lemma drain_mode c loc now : forall n b s,
-  qof loc (dr_st (drain None loc n now s)) = [] ->
+  qlen loc (dr_st (drain None loc n now s)) = 0%nat ->
   (length (dr_ps (drain None loc n now s)) <= b)%nat ->
   Forall (ok c) (dr_ps (drain None loc n now s)) ->
   drain (Some c) loc b now s = drain None loc n now s.
